@@ -362,10 +362,15 @@ class Check:
         """native probe programs of a unit, run once per check: they decide nothing, but (a) they are the traces against
         which the stub-level obligations are replayed, and (b) a probe that fails while no obligation is violated means the
         check has a blind spot - that run is reported as inconclusive, never as a pass"""
+        for r in self.ws.runners.values():
+            r.trace = []
         bad, detail = probe_fn(nat)
+        cmds = [(prof, c, o) for prof, r in self.ws.runners.items() for (c, o) in (r.trace or [])]
+        for r in self.ws.runners.values():
+            r.trace = None
         self.validated += count
         self.probe_results = getattr(self, "probe_results", [])
-        self.probe_results.append({"unit": label, "failed": bool(bad), "detail": detail[:400]})
+        self.probe_results.append({"unit": label, "failed": bool(bad), "detail": detail[:400], "native_commands": cmds[-3:] if bad else []})
 
     def unit(self, name):
         return self.units.setdefault(name, {"paths": 0, "obligations": 0, "discharged": 0, "witnesses": 0, "panic_outcomes": 0})
@@ -602,6 +607,13 @@ class Check:
         wall = round(time.time() - self.t0, 2)
         status = 0
         lines = []
+        # a native probe that misbehaves on the real build is a witnessed violation, whether or not one of this check's units led
+        # to it: it is reported as such (labelled: not found by the solver), never swallowed into "inconclusive"
+        for pr in getattr(self, "probe_results", []):
+            if pr["failed"] and not any(v.get("replay", "")[:200] == pr["detail"][:200] for v in self.violations):
+                self.violations.append({"unit": pr["unit"], "obligation": "native probe battery (witnessed on the real build; outside what the solver-decided units of this check reach)",
+                                        "inputs": {}, "replay": pr["detail"], "reproduced": True, "found_by": "native probe, not the solver",
+                                        "native_commands": pr.get("native_commands", [])})
         if self.validation_mismatch:
             self.inconclusive.append("encoder disagrees with the real code on %d validation case(s): %s" % (len(self.validation_mismatch), self.validation_mismatch[:3]))
         for u, d in self.units.items():
@@ -634,9 +646,6 @@ class Check:
                 lines.append("KNOWN-FINDING: property=%s %s [%s] witness=%s" % (self.pid, f["what"], f["id"], w["inputs"]))
             else:
                 self.notes.append("known finding %s was not observed in this run (tier %s)" % (f["id"], self.tier))
-        for pr in getattr(self, "probe_results", []):
-            if pr["failed"] and not self.violations:
-                self.inconclusive.append("a native probe of %s fails although no obligation is violated (blind spot of this check): %s" % (pr["unit"], pr["detail"]))
         if getattr(self, "partial", False):
             self.inconclusive.append("partial debugging run (VERIF_ONLY set): not a verdict")
         if self.inconclusive and status == 0:
